@@ -51,3 +51,72 @@ Lemma s_do_get_alone_accepts_invalid_state :
   ok r = true /\ pv (cur (rs r)) = false /\ trace (rs r) = [0x1.3333333333333p-2; 1] /\
   (rt r =? 0x1.3333333333333p-2) = false.
 Proof. vm_compute. repeat split; reflexivity. Qed.
+
+(* ---------- More-Thuente / CG_DESCENT success cases: example oracles and the exit flags of a result ---------- *)
+Definition ftwo : float := 2.
+Definition t_assoc : float := 0x1.ap-7.                      (* 13/1024 *)
+Definition n_stpmin : float := stpmin.
+
+(* phi(t) = 1 - t (unbounded below), f0 = 1, dg0 = -1 *)
+Definition phi_linear (_ : Z) (t : float) : probe := mkP true (1 - t) (-1).
+(* a jump at the origin: f = 2 > f0 = 1 with slope +1 for every t *)
+Definition phi_jump (_ : Z) (_ : float) : probe := mkP true 2 1.
+(* phi(t) = |t - 1/2| (kink at the minimiser), f0 = 1/2, dg0 = -1 *)
+Definition phi_vee (_ : Z) (t : float) : probe := if t <? 0.5 then mkP true (0.5 - t) (-1) else mkP true (t - 0.5) 1.
+Definition p0_vee : probe := mkP true 0.5 (-1).
+(* a plateau 2^-24 above f0 = 1 with zero slope: inside epsilon_k = 1e-6*|f0|, but no decrease *)
+Definition phi_plateau (_ : Z) (_ : float) : probe := mkP true (1 + 0x1p-24) 0.
+(* f(t) = t * (c1 * dg0) with f0 = 0, dg0 = -3: exactly More-Thuente's ftest, one ulp above state.cpp's
+   f0 + (t * c1) * dg0 at t = 13/1024 *)
+Definition p0_assoc : probe := mkP true 0 (-3).
+Definition phi_assoc (_ : Z) (t : float) : probe := mkP true (t * (c1 (prm_default 1) * pg p0_assoc)) 0.
+
+(* the five More-Thuente tests in source order (rounding, collapsed, stpmax, stpmin, converged) on the returned iterate
+   and the exit ghost *)
+Definition mt_exit_flags (prm : params) (p0 : probe) (r : result) : option (list bool) :=
+  match rx r with
+  | XMT m => let p := cur (rs r) in
+             Some [mt_exit_rounding (rt r) m; mt_exit_collapsed m; mt_exit_stpmax prm p0 p (rt r);
+                   mt_exit_stpmin prm p0 p (rt r); mt_converged prm p0 p (rt r)]
+  | _ => None
+  end.
+
+(* CG_DESCENT: [bracketed; a.f > f0 + epsilon_k; b.g < 0; step inside [a.t, b.t]; armijo; wolfe; approx armijo; approx wolfe]
+   on the returned state and the exit ghost *)
+Definition cg_exit_flags (prm : params) (p0 : probe) (r : result) : option (list bool) :=
+  match rx r with
+  | XCG iv br => let c := cur (rs r) in
+                 Some [br; pf p0 + cg_epsk prm p0 <? st_f (i_a iv); st_g (i_b iv) <? 0; negb (cg_outside iv);
+                       has_armijo p0 c (rt r) (c1 prm); has_wolfe p0 c (c2 prm);
+                       has_approx_armijo p0 c (cg_epsk prm p0); has_approx_wolfe p0 c (c1 prm) (c2 prm)]
+  | _ => None
+  end.
+
+Lemma s_mt_exits_reachable :
+  (let r := ls_get phi_parab (prm_default 128) p0_parab MoreThuente t_eighth in
+   ok r = true /\ mt_exit_flags (prm_default 128) p0_parab r = Some [false; false; false; false; true]) /\
+  (let r := ls_get phi_vee (prm_default 128) p0_vee MoreThuente 1 in
+   ok r = true /\ mt_exit_flags (prm_default 128) p0_vee r = Some [true; true; false; false; false] /\
+   has_strong_wolfe p0_vee (cur (rs r)) (c2 (prm_default 128)) = false) /\
+  (let r := ls_get phi_linear (prm_default 128) p0_slope MoreThuente 1 in
+   ok r = true /\ mt_exit_flags (prm_default 128) p0_slope r = Some [false; false; true; false; false] /\
+   has_strong_wolfe p0_slope (cur (rs r)) (c2 (prm_default 128)) = false) /\
+  (let r := ls_get phi_jump (prm_default 128) p0_slope MoreThuente 1 in
+   ok r = true /\ mt_exit_flags (prm_default 128) p0_slope r = Some [false; false; false; true; false] /\
+   has_armijo p0_slope (cur (rs r)) (rt r) (c1 (prm_default 128)) = false /\ (pf p0_slope <? pf (cur (rs r))) = true).
+Proof. vm_compute. repeat split; reflexivity. Qed.
+
+Lemma s_mt_state_armijo_not_implied :
+  let r := ls_get phi_assoc (prm_default 128) p0_assoc MoreThuente t_assoc in
+  ok r = true /\ mt_exit_flags (prm_default 128) p0_assoc r = Some [false; false; false; false; true] /\
+  has_armijo p0_assoc (cur (rs r)) (rt r) (c1 (prm_default 128)) = false.
+Proof. vm_compute. repeat split; reflexivity. Qed.
+
+Lemma s_cg_exits_reachable :
+  (let r := ls_get phi_parab (prm_default 128) p0_parab CGDescent t_eighth in
+   ok r = true /\ cg_exit_flags (prm_default 128) p0_parab r = Some [true; false; false; true; true; true; true; true]) /\
+  (let r := ls_get phi_plateau (prm_default 128) p0_slope CGDescent 1 in
+   ok r = true /\ cg_exit_flags (prm_default 128) p0_slope r = Some [false; false; false; true; false; true; true; true]) /\
+  (let r := ls_get phi_linear (prm_default 128) p0_slope CGDescent 1 in
+   ok r = true /\ cg_exit_flags (prm_default 128) p0_slope r = Some [true; false; true; false; true; false; true; false]).
+Proof. vm_compute. repeat split; reflexivity. Qed.
